@@ -188,6 +188,17 @@ def corpus(tier, rng):
             taxa = (i % 2 == 0)
             docs.append(dict(schema="nexus", name="nexus:%s+%s/tr%s,%s/taxa%d" % ("".join(map(str, a)), "".join(map(str, b)), ta, tb, taxa),
                              text=nexus_doc([(a, ta), (b, tb)], taxa, chars=(taxa and i % 3 == 0)), sizes=[len(a), len(b)]))
+    # NeXML with two <otus> blocks that have labels in common (a tree block on each)
+    from bounded.C11 import NEXML_TWO
+    docs.append(dict(schema="nexml", name="nexml<-handwritten:two-otus", text=NEXML_TWO, sizes=[1, 1], attached=True))
+    # comments and a quoted label that run over a line break (every route delivers the same characters inside them)
+    ML_NEWICK = "[a comment over\n   two lines] (A:1,('B\n b':2,C:3)[node note\nsecond line]:4);\n[&R] [second\ntree] ((A,'B\n b'),C);\n"
+    docs.append(dict(schema="newick", name="newick:multiline-comments", text=ML_NEWICK, sizes=[2]))
+    ML_NEXUS = ("#NEXUS\nBEGIN TREES;\n [block comment over\n  two lines]\n TREE t1 = [&R] [inferred with\n     default settings] (A:1,(B:2,C:3)[note\nmore]:4);\n"
+                " TREE t2 = (A,(B,C));\nEND;\n")
+    docs.append(dict(schema="nexus", name="nexus:multiline-comments", text=ML_NEXUS, sizes=[2]))
+    for d in docs[-2:]:
+        docs.append(dict(d, name=d["name"] + ":crlf", text=d["text"].replace("\n", "\r\n")))
     # the same documents with CR+LF line ends (a subset): a string or a path is read with universal newlines, a stream
     # handed over by the caller delivers the carriage returns to the tokenizer
     for i, d in enumerate(list(docs)):
@@ -200,6 +211,15 @@ def corpus(tier, rng):
             # quick: the default plus three of the eleven other option sets, rotating over the corpus
             rest = NEWICK_OPTS[1:]
             d["opts_list"] = [NEWICK_OPTS[0]] + [rest[(3 * i + j) % len(rest)] for j in range(3)]
+    # a block the reader does not interpret before a TREES block whose statements run over line breaks, with and without keeping the
+    # text of the uninterpreted block (reader option store_ignored_blocks)
+    IGN = ("#NEXUS\nBEGIN PAUP;\n set criterion=likelihood\n   storebrlens=yes;\nEND;\nBEGIN TREES;\n TREE t1 = [&R] ((A:1,\n B:2):1,\n C:3);\n"
+           " TREE t2 = (A,\n (B,C));\nEND;\n")
+    docs.append(dict(schema="nexus", name="nexus:ignored-block+multiline-trees", text=IGN, sizes=[2],
+                     opts_list=[{}, {"store_ignored_blocks": True}, {"store_ignored_blocks": True, "rooting": "force-unrooted"}]))
+    # two titled TAXA blocks with labels in common, a TREES block linked to each
+    from bounded.C11 import NEXUS_TWO
+    docs.append(dict(schema="nexus", name="nexus:two-taxa-blocks", text=NEXUS_TWO, sizes=[1, 1], opts_list=[{}]))
     # NeXML: written from the NEXUS documents (subset)
     nx = [d for d in docs if d["schema"] == "nexus"]
     step = 4 if full else 9
@@ -246,6 +266,9 @@ def _slice(ref, lo, hi=None):
 def evaluate(case):
     """one (document, options) pair through every route -> list of [monitor, detail]"""
     text, schema, sizes = case["text"], case["schema"], case["sizes"]
+    # a stream handed over by the caller delivers its characters as they are; where line breaks are part of the DATA (comments and
+    # quoted labels running over a line) the comparison is between text-mode streams, as open() and the string route give them
+    SIO = (lambda: io.StringIO(text, newline=None)) if "multiline" in case.get("name", "") else (lambda: io.StringIO(text))
     kw = dict(case["opts"])
     out = []
     n_routes = [0]
@@ -280,7 +303,7 @@ def evaluate(case):
     def inc():
         tl = TreeList()
         n1 = tl.read(data=text, schema=schema, **kw)
-        n2 = tl.read(file=io.StringIO(text), schema=schema, **kw)
+        n2 = tl.read(file=SIO(), schema=schema, **kw)
         if n1 != total or n2 != total:
             raise AssertionError("read() returned %r then %r for a document with %d trees" % (n1, n2, total))
         return _dumps(tl._trees)
@@ -291,7 +314,7 @@ def evaluate(case):
     # yielder
     def yl(k):
         ns = TaxonNamespace()
-        return _dumps(list(Tree.yield_from_files([io.StringIO(text) for _ in range(k)], schema, taxon_namespace=ns, **kw)))
+        return _dumps(list(Tree.yield_from_files([SIO() for _ in range(k)], schema, taxon_namespace=ns, **kw)))
 
     _cmp("routes.yield_from_files", ref, run(lambda: yl(1)), out, "one stream")
     _cmp("routes.yield_from_files", dbl, run(lambda: yl(2)), out, "two streams")
@@ -315,7 +338,7 @@ def evaluate(case):
         if how == "read":
             ta.read(data=text, schema=schema, **kw)
         else:
-            ta.read_from_files([io.StringIO(text)], schema, **kw)
+            ta.read_from_files([SIO()], schema, **kw)
         return ta_dump(ta)
 
     tref = _call(ta_ref)
@@ -339,14 +362,14 @@ def evaluate(case):
 
     def ds_read():
         ds = DataSet()
-        ds.read(file=io.StringIO(text), schema=schema, **kw)
+        ds.read(file=SIO(), schema=schema, **kw)
         return _dumps([t for tl in ds.tree_lists for t in tl._trees])
 
     _cmp("routes.dataset", ref, run(ds_get), out, "DataSet.get")
     _cmp("routes.dataset", ref, run(ds_read), out, "DataSet().read")
 
     # sources
-    _cmp("routes.source", ref, run(lambda: _dumps(TreeList.get(file=io.StringIO(text), schema=schema, **kw)._trees)), out, "file=")
+    _cmp("routes.source", ref, run(lambda: _dumps(TreeList.get(file=SIO(), schema=schema, **kw)._trees)), out, "file=")
 
     def by_path():
         fd, p = tempfile.mkstemp(prefix="c13_", suffix="." + schema)
@@ -370,7 +393,7 @@ def evaluate(case):
         labels0 = T.ns_labels(ns)
         trees = list(a._trees)
         trees.append(Tree.get(data=text, schema=schema, taxon_namespace=ns, collection_offset=len(sizes) - 1, tree_offset=sizes[-1] - 1, **kw))
-        trees.extend(Tree.yield_from_files([io.StringIO(text)], schema, taxon_namespace=ns, **kw))
+        trees.extend(Tree.yield_from_files([SIO()], schema, taxon_namespace=ns, **kw))
         b = TreeList(taxon_namespace=ns)
         b.read(data=text, schema=schema, **kw)
         trees.extend(b._trees)
@@ -392,6 +415,40 @@ def evaluate(case):
             out.append(["routes.shared_namespace.raises", "%s: %s" % (r[1], r[2])])
         elif r[1]:
             out.append(["routes.shared_namespace", r[1][0]])
+
+    # the routes that hand the caller's namespace to the READER (it is attached while the document is read): two reads of the document
+    # into one fresh namespace leave one taxon per label, and both reads sit on those taxa
+    def attached():
+        ns = TaxonNamespace()
+        trees = list(Tree.yield_from_files([SIO()], schema, taxon_namespace=ns, **kw))
+        labels0 = T.ns_labels(ns)
+        ds = DataSet.get(data=text, schema=schema, taxon_namespace=ns, **kw)
+        for tl in ds.tree_lists:
+            trees.extend(tl._trees)
+        ds2 = DataSet()
+        ds2.attach_taxon_namespace(ns)
+        ds2.read(data=text, schema=schema, **kw)
+        for tl in ds2.tree_lists:
+            trees.extend(tl._trees)
+        errs = []
+        if len(set(labels0)) != len(labels0):
+            errs.append("one read leaves duplicate labels in the namespace: %r" % (labels0,))
+        if T.ns_labels(ns) != labels0:
+            errs.append("namespace labels after the first read %r, after three reads %r" % (labels0, T.ns_labels(ns)))
+        for t in trees:
+            errs.extend(T.taxon_identity_errors(t, ns))
+        return errs[:1]
+
+    if case.get("attached"):
+        # (a document with several taxa blocks is read into ONE namespace by some routes and into one per block by others: only this
+        # clause is compared for it -- the other comparisons above are dropped)
+        out = []
+        r = run(attached)
+        if ref[0] == "ok":
+            if r[0] == "exc":
+                out.append(["routes.attached_namespace.raises", "%s: %s" % (r[1], r[2])])
+            elif r[1]:
+                out.append(["routes.attached_namespace", r[1][0]])
     return out, n_routes[0]
 
 
@@ -520,7 +577,7 @@ def t2(ctx):
     cases = []
     for d in docs:
         for o in d["opts_list"]:
-            cases.append(dict(kind="trees", schema=d["schema"], name=d["name"], text=d["text"], sizes=d["sizes"], opts=o))
+            cases.append(dict(kind="trees", schema=d["schema"], name=d["name"], text=d["text"], sizes=d["sizes"], opts=o, attached=bool(d.get("attached"))))
     mcases = matrix_cases()
     sc = "routes-agree@corpus"
     ctx.scope(sc, rule="%d documents (Newick: every sequence of <=3 statements over an 8-statement pool%s; NEXUS: 1 TREES block x "
